@@ -179,10 +179,14 @@ func runLongFilters(t *testing.T, rc *core.RunCtx) {
 		}
 	}
 	wt.cfValue = provableOnly && rc.Prop == "C03"
+	// cpReorg: an honest reorganisation replaced the block at a checkpoint
+	// height (a multiple of 1000): checkpoints the client fetched before
+	// and filter headers it fetches after belong to different chains.
+	cpReorg := false
 	w.observers = append(w.observers, func() {
 		if wt.cfValue && sawCheckpt && (!honestInTime || w.peers[0].sessions > 1 || !w.peers[0].connected()) {
 			if honestInTime && w.cs.IsBanned(w.peers[0].addr.String()) {
-				rc.Failf("honest-node-banned", map[string]string{"liars": fmt.Sprint(nLiars > 0), "long": "true"},
+				rc.Failf("honest-node-banned", map[string]string{"liars": fmt.Sprint(nLiars > 0), "long": "true", "checkpoint_block_reorganised": fmt.Sprint(cpReorg)},
 					"the client banned the honest, reliable node %s (long chain, checkpointed filter-header sync)", w.peers[0].addr.IP)
 			}
 			wt.cfValue = false
@@ -212,6 +216,9 @@ func runLongFilters(t *testing.T, rc *core.RunCtx) {
 			}
 			rc.Logf("t=%s honest chain reorganises %d deep to %d while a checkpointed filter-header answer waits to be written", w.clock(), depth, nt.Height)
 			rc.Probe("long_reorg_replaces_stop_block_of_batch_in_flight")
+			if at.Height < honestTip.Height/1000*1000 {
+				cpReorg = true
+			}
 			honestTip = nt
 			for _, p := range w.peers {
 				if p.role != "lagging" {
@@ -251,6 +258,9 @@ func runLongFilters(t *testing.T, rc *core.RunCtx) {
 			}
 			rc.Logf("t=%s event: honest chain reorganises %d deep to %d", w.clock(), depth, nt.Height)
 			rc.Probe("honest_reorg_event")
+			if at.Height < honestTip.Height/1000*1000 {
+				cpReorg = true
+			}
 			honestTip = nt
 			for _, p := range w.peers {
 				if p.role != "lagging" {
@@ -316,7 +326,7 @@ func runLongFilters(t *testing.T, rc *core.RunCtx) {
 		}
 	}
 	if rc.Prop == "C03" && w.cs.IsBanned(w.peers[0].addr.String()) && (nLiars == 0 || wt.cfValue) {
-		rc.Failf("honest-node-banned", map[string]string{"liars": fmt.Sprint(nLiars > 0), "long": "true"},
+		rc.Failf("honest-node-banned", map[string]string{"liars": fmt.Sprint(nLiars > 0), "long": "true", "checkpoint_block_reorganised": fmt.Sprint(cpReorg)},
 			"the honest, reliable node %s is in the ban store (long chain)", w.peers[0].addr.IP)
 	}
 	if honestInTime {
